@@ -46,9 +46,10 @@ def run(ctx):
     pat = START_SEQ
     m = len(pat)
     kmp = kmp_table(pat)
-    # ---- extract the transition relation symbolically (n and b symbolic, fully path-sensitive)
+    # ---- extract the transition relation: one run per matcher state n (concrete, so that table-driven matchers evaluate), the byte symbolic
     old_thr = ip.join_threshold
     ip.join_threshold = 10 ** 9
+    trans_of = {}
     try:
         st = ip.new_state()
         obj0 = A.import_partition(st, S)
@@ -61,16 +62,23 @@ def run(ctx):
         lo, hi = st.interval(n0)
         if lo != 0 or hi != m - 1:
             ctx.violation("R-C08-KMP", "state-range", where, "matcher state ranges over [%s,%s], expected [0,%d]" % (lo, hi, m - 1))
-        runs = A.run_fn(an.push, st0=st, first_arg=VRef(root, (), True))
+        for n in range(m):
+            stn = st.copy()
+            try:
+                stn.assume_eq0(n0 - n)
+            except Infeasible:
+                trans_of[n] = []
+                continue
+            lst = []
+            for (s1, rv, args) in A.run_fn(an.push, st0=stn, first_arg=VRef(root, (), True)):
+                for s2, label in classify_push(ip, s1, rv, an):
+                    lst.append((s2, label, s2.mem[root], rv, args[2]))
+            trans_of[n] = lst
     finally:
         ip.join_threshold = old_thr
-    trans = []
-    for (s1, rv, args) in runs:
-        for s2, label in classify_push(ip, s1, rv, an):
-            trans.append((s2, label, s2.mem[root], rv, args[2]))
-    ctx.cov["extracted_transitions"] = len(trans)
-    if len(trans) < 3:
-        ctx.violation("BELOW-FLOOR", "R-C08-KMP", where, "only %d matcher transitions extracted" % len(trans))
+    ctx.cov["extracted_transitions"] = sum(len(v) for v in trans_of.values())
+    if ctx.cov["extracted_transitions"] < 2 * m:
+        ctx.violation("BELOW-FLOOR", "R-C08-KMP", where, "only %d matcher transitions extracted" % ctx.cov["extracted_transitions"])
     bad = {}
     found_states = []
     cells = 0
@@ -78,10 +86,9 @@ def run(ctx):
         for b in range(256):
             cells += 1
             enabled = []
-            for (s2, label, obj1, rv, barg) in trans:
+            for (s2, label, obj1, rv, barg) in trans_of[n]:
                 s3 = s2.copy()
                 try:
-                    s3.assume_eq0(n0 - n)
                     s3.assume_eq0(barg.lin - b)
                 except Infeasible:
                     continue
